@@ -1,6 +1,12 @@
 package fam
 
 import (
+	"crypto/sha256"
+	"encoding/hex"
+	"encoding/json"
+	"os"
+	"os/exec"
+	"path/filepath"
 	"fmt"
 	"math/big"
 	"sort"
@@ -59,7 +65,50 @@ func World(prop string, r *rng.R, n int) Result {
 		res.Failures = append(res.Failures, fails...)
 	}
 	res.Notes["operation_outcomes"] = stats
+	if prop == "C19" && os.Getenv("VERIF_C19_CHILD") == "" && os.Getenv("VERIF_DRIVE_OUT") != "" {
+		res.Notes["second_process"] = secondProcess(&res)
+	}
 	return res
+}
+
+// secondProcess regenerates and replays the same histories in another OS process (its own map
+// iteration seeds, heap addresses, start time) and compares the transcripts case by case.
+func secondProcess(res *Result) map[string]any {
+	out := filepath.Join(os.Getenv("VERIF_DRIVE_OUT"), "child")
+	defer os.RemoveAll(out)
+	cmd := exec.Command(os.Args[0], "-prop", "C19", "-seed", os.Getenv("VERIF_DRIVE_SEED"), "-n", os.Getenv("VERIF_DRIVE_N"), "-out", out, "-shard", "1000000")
+	cmd.Env = append(os.Environ(), "VERIF_C19_CHILD=1")
+	if bz, err := cmd.CombinedOutput(); err != nil {
+		res.Failures = append(res.Failures, Failure{What: "the second process failed: " + err.Error() + " " + clip(string(bz), 600), Sig: "second-process", Prop: "corr", Case: map[string]any{}})
+		return map[string]any{"ran": false}
+	}
+	var cases []struct {
+		Desc map[string]any `json:"desc"`
+	}
+	bz, err := os.ReadFile(filepath.Join(out, "cases.json"))
+	if err == nil {
+		err = json.Unmarshal(bz, &cases)
+	}
+	if err != nil || len(cases) != len(res.Cases) {
+		res.Failures = append(res.Failures, Failure{What: fmt.Sprintf("the second process produced %d histories, this one %d (generation follows the implementation's answers: they differ between processes)", len(cases), len(res.Cases)),
+			Sig: "process-replay-differs", Prop: "C19", Case: map[string]any{}})
+		return map[string]any{"ran": true, "compared": 0}
+	}
+	same := 0
+	for i, c := range res.Cases {
+		a, _ := c.Desc["transcript_sha256"].(string)
+		b, _ := cases[i].Desc["transcript_sha256"].(string)
+		if a == b && a != "" {
+			same++
+			continue
+		}
+		res.Failures = append(res.Failures, Failure{What: fmt.Sprintf("history %d replayed in a second process gives another transcript (acknowledgements, events, exported state): %s vs %s", i, a, b),
+			Sig: "process-replay-differs", Prop: "C19", Case: map[string]any{"history": c.Desc["ops"], "second_process_history": cases[i].Desc["ops"]}})
+		if len(res.Failures) > 20 {
+			break
+		}
+	}
+	return map[string]any{"ran": true, "compared": len(res.Cases), "identical": same}
 }
 
 func maskCoq(mask []int) string {
@@ -113,6 +162,21 @@ func (wr *worldRunner) runCase(prop string, p profile, r *rng.R, stats map[strin
 				} else {
 					pkt.ICS.Memo = `{"orbiter":{}}`
 					info.shape += "/unbuildable"
+				}
+			}
+			if prop == "C19" && info.spec != nil && pkt.ICS != nil && info.spec.rawMem == nil && r.Chance(22) {
+				// a document with several irregularities at once: the decoder meets them through Go maps
+				if tree, err := scanJSON(pkt.ICS.Memo); err == nil && tree.kind == 'o' && len(tree.keys) > 0 {
+					jg := &jsonGen{r: r, a: wr.a}
+					if !(r.Chance(30) && jg.forceBoth(tree)) {
+						for k := 1 + r.Intn(3); k > 0; k-- {
+							jg.mutate(tree)
+						}
+					}
+					raw := tree.text()
+					info.spec.rawMem = &raw
+					pkt.ICS.Memo = raw
+					info.shape += "/mutated-memo"
 				}
 			}
 			op := world.Op{Kind: "recv", Pkt: pkt, Twin: prop == "C11", Ref: prop == "C07"}
@@ -204,13 +268,67 @@ func (wr *worldRunner) runCase(prop string, p profile, r *rng.R, stats map[strin
 			fails = append(fails, Failure{What: "the stack as wired and the instrumented instance disagree: " + obs.WiringDisagrees, Sig: "wiring", Prop: "corr",
 				Case: map[string]any{"op": describeOp(pl.op, pl.info, obs)}})
 		}
-		fails = append(fails, orc.check(pl.op, pl.info, obs)...)
+		if prop != "C19" {
+			// C19 histories carry mutated memos the generator's description of the payload no longer fits;
+			// the other properties' oracles run in their own families
+			fails = append(fails, orc.check(pl.op, pl.info, obs)...)
+		}
+	}
+	transcript := ""
+	if prop == "C19" {
+		// the same history on fresh instances of the application as wired
+		var runs []string
+		var perOp [][]string
+		for rep := 0; rep < 3; rep++ {
+			rctx := wr.caseCtx()
+			for _, ch := range dstChans {
+				for _, d := range wr.w.Denoms {
+					if n := need[[2]string{ch, d}]; n != nil {
+						wr.topUp(rctx, ch, d, n)
+					}
+				}
+			}
+			var lines []string
+			for _, pl := range ops {
+				lines = append(lines, wr.w.Transcript(rctx, pl.op))
+			}
+			lines = append(lines, wr.w.FinalTranscript(rctx))
+			perOp = append(perOp, lines)
+			runs = append(runs, strings.Join(lines, ""))
+		}
+		transcript = runs[0]
+		if d := os.Getenv("VERIF_C19_DUMP"); d != "" {
+			f, _ := os.OpenFile(d, os.O_APPEND|os.O_CREATE|os.O_WRONLY, 0o644)
+			f.WriteString("=== case\n" + transcript)
+			f.Close()
+		}
+		for rep := 1; rep < len(runs); rep++ {
+			if runs[rep] == runs[0] {
+				continue
+			}
+			for i := range perOp[0] {
+				if perOp[0][i] != perOp[rep][i] {
+					what := "the final exported state"
+					if i < len(descOps) {
+						what = "operation " + fmt.Sprint(i) + " (" + descOps[i] + ")"
+					}
+					fails = append(fails, Failure{What: "replaying the same history on a fresh instance differs at " + what + ":\n--- replay 0\n" + clip(perOp[0][i], 1500) + "--- replay " + fmt.Sprint(rep) + "\n" + clip(perOp[rep][i], 1500),
+						Sig: "replay-differs", Prop: "C19", Case: map[string]any{}})
+					break
+				}
+			}
+			break
+		}
 	}
 	input := "(" + maskCoq(p.mask) + ", " + wr.coqHeader(before, strsB, strsI, opTerms, before.State) + ")"
 	if wr.w.InstOnly {
 		input = "((" + maskCoq(p.mask) + ", " + cq.Str(world.Hex(PoolAddr())) + "), " + wr.coqHeader(before, strsB, strsI, opTerms, before.State) + ")"
 	}
 	desc := map[string]any{"ops": descOps}
+	if transcript != "" {
+		h := sha256.Sum256([]byte(transcript))
+		desc["transcript_sha256"] = hex.EncodeToString(h[:])
+	}
 	for i := range fails {
 		if fails[i].Case == nil {
 			fails[i].Case = map[string]any{}
@@ -1134,4 +1252,11 @@ func denomOfToken(wr *worldRunner, raw string) string {
 		}
 	}
 	return "?"
+}
+
+func clip(s string, n int) string {
+	if len(s) > n {
+		return s[:n] + "...\n"
+	}
+	return s
 }
